@@ -229,6 +229,13 @@ _PATCH_NOTES = {
     "TE1": "core: explicit matches for ok_or/?, if-a>b-else for max, mutable Option instead of map", "TE2": "inmemory: explicit match arms re-wrapping Some(v.clone())", "TE3": "sqlite: explicit no-row arm instead of optional(), Err(e).context(..)",
     "TE4": "api: explicit matches instead of map_err+?, loop/match over the stream", "TF1": "core: add_snapshot split; walk in check_snapshot_version() returning Accept/Decline", "TF2": "core: add_version split into append_version() and snapshot_urgency()",
     "TF3": "add_version handler: read_body() and create_missing_client() helpers", "TF4": "sqlite: initialize(con) and client_from_row() split out",
+    "UA1": "core: id aliases used consistently", "UA2": "core: impl From<Version> for GetVersionResult, version.into()", "UA3": "core: generic for_age<T: PartialOrd> shared by both classifiers",
+    "UA4": "core: map_or(High, ..) per urgency, a.max(b)", "UB1": "inmemory: let-else, delegation to get_version", "UB2": "inmemory: bail!/ensure! throughout", "UB3": "inmemory: client()/client_mut() accessors",
+    "UB4": "inmemory: InnerTxn -> InMemoryTxn, guard -> inner", "UC1": "sqlite: stored_client_id() accessor", "UC2": "sqlite: shortened type paths via imports", "UC3": "sqlite: tail expressions instead of let+Ok",
+    "UC4": "sqlite: locals and closure parameters renamed", "UD1": "add_version: create_client_if_absent() helper", "UD2": "add_version: retry-only loop with break value, then map_err+match", "UD3": "api: SharedServerState type alias",
+    "UD4": "api: is_client_allowed() predicate method", "UE1": "api: one shared MAX_BODY_SIZE constant", "UE2": "api: SharedServerState alias in handlers", "UE3": "lib: http::header::CACHE_CONTROL constant for the header name",
+    "UE4": "lib: compile-time banner string for GET /", "UF1": "bin: ServerArgs::server_config()", "UF2": "bin: remove_one / remove_many instead of get_* + clone", "UF3": "bin: ServerArgs destructured in main",
+    "UF4": "bin: generic required::<T>() accessor",
 }
 for _p in sorted(_glob.glob(_os.path.join(_PD, "*.diff"))):
     _n = _os.path.basename(_p)[:-5]
